@@ -952,6 +952,32 @@ func (env *SpecEnv) call(x ECall) (SVal, error) {
 	ft := env.ft
 	e := ft.e
 	u := e.u
+	if x.Fn == "loopold" {
+		// loopold(e): e in the state in which the loop of this invariant was entered
+		if len(x.Args) != 1 || env.fr == nil || env.fr.curLoopEntry == nil {
+			return SVal{}, fmt.Errorf("loopold(e) is only available in loop invariants")
+		}
+		saveCur, saveOld := env.cur, env.inOld
+		env.cur, env.inOld = env.fr.curLoopEntry, false
+		// loop variables (header phis) denote their values on entry
+		savedVals := map[*ssa.Phi]Val{}
+		for phi, ev := range env.fr.curLoopEntryPhis {
+			if cur, ok := env.fr.vals[phi]; ok {
+				savedVals[phi] = cur
+			}
+			env.fr.vals[phi] = ev
+		}
+		v, err := env.eval(x.Args[0])
+		for phi := range env.fr.curLoopEntryPhis {
+			if cur, ok := savedVals[phi]; ok {
+				env.fr.vals[phi] = cur
+			} else {
+				delete(env.fr.vals, phi)
+			}
+		}
+		env.cur, env.inOld = saveCur, saveOld
+		return v, err
+	}
 	var args []SVal
 	for _, a := range x.Args {
 		v, err := env.eval(a)
